@@ -78,11 +78,34 @@ class Env(object):
         self.clock_pos = 0
         self.nvalid = 0
         self.depth = 0
+        self.conf_files = []
 
-    def params(self, charset, exclude=None):
-        p = self._params(charset)
+    def params(self, charset, exclude=None, conf=None):
+        if conf:
+            # the caller keeps its options in a configuration file: a fresh parameter object is built from that file
+            # (the file stays on disk for the rest of the history, as a user's configuration file would)
+            import pyx12.params
+            base = os.environ.get('VERIF_SCRATCH_RUN') or tempfile.gettempdir()
+            fd, path = tempfile.mkstemp(prefix='conf-', suffix='.xml', dir=base)
+            with os.fdopen(fd, 'w') as f:
+                f.write('<?xml version="1.0"?>\n<pyx12conf>\n' + ''.join(
+                    '<param name="%s"><value>%s</value><type>string</type></param>\n' % (k, v) for k, v in sorted(conf.items()))
+                    + '</pyx12conf>\n')
+            self.conf_files.append(path)
+            p = pyx12.params.params(path)
+            p.set('charset', charset)
+        else:
+            p = self._params(charset)
         p.set('exclude_external_codes', exclude)
         return p
+
+    def cleanup(self):
+        for path in self.conf_files:
+            try:
+                os.unlink(path)
+            except OSError:
+                pass
+        self.conf_files = []
 
     def _params(self, charset):
         import pyx12.params
@@ -111,7 +134,7 @@ class Env(object):
 
 def do_validate(env, op, callback=None):
     text = env.docs[op['doc']]
-    param = env.params(op.get('charset', 'E'), op.get('exclude'))
+    param = env.params(op.get('charset', 'E'), op.get('exclude'), op.get('conf'))
     env.depth += 1
     try:
         r = _validate(env, op, text, param, callback)
@@ -290,6 +313,7 @@ def run_history(spec):
         if memo_ctx is not None:
             import pyx12.map_if
             pyx12.map_if.load_map_file = memo_ctx
+        env.cleanup()
     return results
 
 
@@ -310,6 +334,7 @@ def run_pristine(spec):
                     res = run_single(env, op)
                 except Exception as e:
                     res = {'harness_exc': repr(e)}
+                env.cleanup()
                 with os.fdopen(w, 'w') as f:
                     json.dump(res, f, default=core._default)
             finally:
